@@ -180,6 +180,14 @@ def handle (args : List String) : String :=
   | ["sliceSameShape", d, o, sp] =>
     (match parseOShape d, parseOShape o, parseOInts sp with
      | some d, some o, some sp => showB (sliceSameShape d o sp) | _, _, _ => bad)
+  | ["reshapeReshape", sh, o, az] =>
+    (match parseOInts sh, parseOShape o, az.toInt? with
+     | some sh, some o, some az =>
+       (match reshapeReshape sh o az with
+        | .raised => "RAISE"
+        | .ret none => "N"
+        | .ret (some (t, a)) => showInts t ++ (if a then " az1" else " az0"))
+     | _, _, _ => bad)
   | ["squeezeReshape", x] =>
     (match parseOShape x with | some x => showB (squeezeReshape1d x) | _ => bad)
   | ["getShapeValue", kind, i64, nd, vals, sym] =>
